@@ -495,6 +495,8 @@ pub struct RustGraph<'a> {
     pub emitted: &'a Emitted,
     pub table: HashMap<String, Extern>,
     nodes: RefCell<Vec<Node<usize>>>,
+    /// transparent wrappers (Box, Cow, parentheses): node i is whatever node aliases[i] is
+    aliases: RefCell<HashMap<usize, usize>>,
     memo: RefCell<HashMap<String, usize>>,
     /// diagnostics: unresolved paths etc.
     pub problems: RefCell<Vec<String>>,
@@ -504,7 +506,14 @@ pub struct RustGraph<'a> {
 impl<'a> Graph for RustGraph<'a> {
     type Id = usize;
     fn node(&self, id: usize) -> Node<usize> {
-        self.nodes.borrow()[id].clone()
+        let mut id = id;
+        for _ in 0..256 {
+            match self.aliases.borrow().get(&id) {
+                Some(t) => id = *t,
+                None => return self.nodes.borrow()[id].clone(),
+            }
+        }
+        Node::Broken("alias cycle (a type that is only Box/Cow of itself)".into())
     }
 }
 
@@ -514,6 +523,7 @@ impl<'a> RustGraph<'a> {
             emitted,
             table: extern_table(settings),
             nodes: RefCell::new(vec![]),
+            aliases: RefCell::new(HashMap::new()),
             memo: RefCell::new(HashMap::new()),
             problems: RefCell::new(vec![]),
             opaque_hits: RefCell::new(0),
@@ -599,8 +609,7 @@ impl<'a> RustGraph<'a> {
         match ty {
             syn::Type::Paren(p) => {
                 let inner = self.node_of_depth(&p.elem, module, depth + 1);
-                let n = self.node(inner);
-                self.set(id, n);
+                self.aliases.borrow_mut().insert(id, inner);
                 id
             }
             syn::Type::Tuple(t) => {
@@ -734,7 +743,8 @@ impl<'a> RustGraph<'a> {
                 Extern::Box | Extern::Cow => {
                     want(1)?;
                     let inner = arg(0);
-                    self.node(inner)
+                    self.aliases.borrow_mut().insert(id, inner);
+                    return Ok(Node::Broken("alias".into()));
                 }
                 Extern::Option => {
                     want(1)?;
